@@ -177,6 +177,16 @@ type Replay struct {
 	MinDraws    int            `json:"min_draws"`
 	Faults      map[string]int `json:"faults,omitempty"`
 	Trace       []string       `json:"trace,omitempty"`
+	// Sequence, if set, makes the replay re-execute the worker's first RunIndex+1 generated runs in one
+	// process: the violation depends on process-global state of the code under test left by earlier runs.
+	Sequence *Sequence `json:"sequence,omitempty"`
+}
+
+// Sequence identifies a worker's run sequence.
+type Sequence struct {
+	Base     uint64 `json:"base"`
+	Worker   int    `json:"worker"`
+	RunIndex int    `json:"run_index"`
 }
 
 func tapeLen(t verifrt.Tape) int {
@@ -326,9 +336,12 @@ type Summary struct {
 // ViolationRec is a violation found by a worker with its replay file.
 type ViolationRec struct {
 	Violation
-	Seed   uint64 `json:"seed"`
-	Replay string `json:"replay"`
-	Count  int    `json:"count"`
+	Seed     uint64 `json:"seed"`
+	Replay   string `json:"replay"`
+	Count    int    `json:"count"`
+	Base     uint64 `json:"base"`      // VERIF_SEED of the exploration
+	Worker   int    `json:"worker"`    // worker index
+	RunIndex int    `json:"run_index"` // index of the run within the worker's sequence
 }
 
 func envInt(k string, def int) int {
@@ -390,7 +403,23 @@ func replayMain(t *testing.T, h Harness) {
 	if rp.Tape == nil {
 		rp.Tape = verifrt.Tape{}
 	}
-	r := RunOnce(t, h, rp.Seed, rp.Tape, true)
+	var r Result
+	if sq := rp.Sequence; sq != nil {
+		for i := 0; i <= sq.RunIndex; i++ {
+			r = RunOnce(t, h, mix(sq.Base, uint64(sq.Worker), uint64(i)), nil, i == sq.RunIndex)
+		}
+		out := map[string]any{
+			"reproduced":        r.has(Violation{Prop: rp.Property, Oracle: rp.Oracle, Sig: rp.Sig}),
+			"fingerprint_match": true,
+			"fingerprint":       r.Fingerprint,
+			"violations":        r.Violations,
+			"steps":             r.Steps,
+			"log":               r.Log,
+		}
+		writeJSON(os.Getenv("VERIF_OUT"), out)
+		return
+	}
+	r = RunOnce(t, h, rp.Seed, rp.Tape, true)
 	out := map[string]any{
 		"reproduced":        r.has(Violation{Prop: rp.Property, Oracle: rp.Oracle, Sig: rp.Sig}),
 		"fingerprint_match": r.Fingerprint == rp.Fingerprint,
@@ -531,7 +560,7 @@ func exploreMain(t *testing.T, h Harness) {
 				rec.Count++
 				continue
 			}
-			rec := &ViolationRec{Violation: v, Seed: seed, Count: 1}
+			rec := &ViolationRec{Violation: v, Seed: seed, Count: 1, Base: base, Worker: worker, RunIndex: i}
 			byKey[key] = rec
 			if prop != "" && v.Prop != prop && v.Prop != "*" {
 				continue // belongs to another property served by this harness; counted, not minimised here
